@@ -131,10 +131,20 @@ def case_roundtrip(ctx, rng, idx):
         leak = float(np.max(np.abs(spec[:, unused])))
         ctx.within("spectral-mask", leak, 64 * EPS * fft * scale, "dc-and-guards-empty",
                    {**tag, "leak": leak, "unused": unused[:6]})
-    okc, back = ctx.call("round-trip", o.demodulate, y.copy(), cls="demodulate", detail=tag)
+    yc = y.copy()
+    okc, back = ctx.call("round-trip", o.demodulate, yc, cls="demodulate", detail=tag)
     if not okc:
         return
     back = np.asarray(back)
+    # the received buffer belongs to the caller: its VALUES are unchanged (the
+    # library reshapes the caller's array to symbols x samples in place; that
+    # is observed but not part of the property) and demodulating it again gives
+    # the same symbols
+    ctx.ev("args-not-mutated", np.array_equal(yc.ravel(), y.ravel()), cls="demodulate", detail=tag)
+    okc, back2 = ctx.call("round-trip", o.demodulate, yc, cls="demodulate-again", detail=tag)
+    if okc:
+        ctx.ev("round-trip", np.array_equal(np.asarray(back2), back), cls="same-buffer-twice",
+               detail=tag)
     ctx.ev("round-trip", back.shape == (nsym * used,), cls="output-length",
            detail={**tag, "got": back.shape})
     if back.shape != (nsym * used,):
@@ -221,15 +231,21 @@ def case_channel(ctx, rng, idx):
     if memory > cp:
         return
     resp = ch.get_last_impulse_response()
-    okc, dem = ctx.call("equalised-equals-input", o.demodulate, r[:y.size].copy(),
+    rc = r[:y.size].copy()
+    okc, dem = ctx.call("equalised-equals-input", o.demodulate, rc,
                         cls="demodulate", detail=tag)
     if not okc:
         return
+    ctx.ev("args-not-mutated", np.array_equal(rc.ravel(), r[:y.size].ravel()), cls="demodulate(received)",
+           detail=tag)
     eq = OF.OfdmOneTapEqualizer(o)
+    demc = np.array(dem, copy=True)
     okc, out = ctx.call("equalised-equals-input", eq.equalize_data, np.asarray(dem), resp,
                         cls="equalize_data", detail=tag)
     if not okc:
         return
+    ctx.ev("args-not-mutated", np.array_equal(demc, np.asarray(dem)), cls="equalize_data",
+           detail=tag)
     out = np.asarray(out)
     # the oracle's own frequency response of the (static) reported taps
     sp = np.asarray(resp.tap_values_sparse)[:, 0]
